@@ -1535,19 +1535,14 @@ fn display_cedarvaluejson(
                     None
                 }
             });
-            match style {
-                Some(ast::CallStyle::MethodStyle) => {
-                    #[expect(
-                        clippy::indexing_slicing,
-                        reason = "method-style calls must have more than one argument"
-                    )]
-                    display_cedarvaluejson(f, &args[0], n)?;
+            // A method-style call needs a receiver. JSON input is not arity-checked,
+            // so a method-style function applied to no arguments is displayed
+            // function-style instead of indexing into an empty argument list.
+            match (style, args.split_first()) {
+                (Some(ast::CallStyle::MethodStyle), Some((receiver, rest))) => {
+                    display_cedarvaluejson(f, receiver, n)?;
                     write!(f, ".{ext_fn}(")?;
-                    #[expect(
-                        clippy::indexing_slicing,
-                        reason = "method-style calls must have more than one argument"
-                    )]
-                    match &args[1..] {
+                    match rest {
                         [] => {}
                         [args @ .., last] => {
                             for arg in args {
@@ -1560,7 +1555,7 @@ fn display_cedarvaluejson(
                     write!(f, ")")?;
                     Ok(())
                 }
-                Some(ast::CallStyle::FunctionStyle) | None => {
+                _ => {
                     write!(f, "{ext_fn}(")?;
                     match &args[..] {
                         [] => {}
